@@ -52,6 +52,22 @@ def main(d):
                 out = scratch.path("out.ndjson")
                 rc, o = vlib.run_test_binary(b, "TestVerifME", {"VERIF_IN": inp, "VERIF_OUT": out})
                 verdict = check_me.validate(scratch, out, par=1)
+        elif kind == "gcpme" and any(st.get("op") == "conc" for st in json.loads(script.split("\n")[0]).get("steps", [])):
+            import pool, conc, conc_gme
+            b = pool.build_pool_harness(scratch, gates=True)
+            out = conc_gme.run_scripts(scratch, b, [json.loads(script.split("\n")[0])], "replay")
+            lin = scratch.path("replay-lin.ndjson")
+            n_orders = 0
+            with open(lin, "w") as fo:
+                for sid, evs in conc.sections(out).items():
+                    for j, seq in enumerate(conc_gme.linearizations(evs)):
+                        n_orders += 1
+                        for e in seq:
+                            fo.write(json.dumps(dict(e, sid="%s~%d" % (sid, j))) + "\n")
+            v = vlib.validate_chunks(scratch, lin, "GCPMETrace", lambda ln: '"op":"reset"' in ln[:80], par=1, tag="replay")
+            mineb = [b_ for b_ in v["bad"] if any(c.startswith(pid) for c in b_["ids"])]
+            verdict = dict(v, bad=mineb if len(set(b_["sid"] for b_ in mineb)) == n_orders else [])
+            print("concurrent section: %d orders validated, %s" % (n_orders, "unexplained" if verdict["bad"] else "explained"))
         elif kind in ("stream", "gcpme"):
             import pool
             b = pool.build_pool_harness(scratch)
